@@ -322,3 +322,27 @@ def refresh_not_skipped(ctx, rid):
     run.instance(rid, {"fn": "apply_api_outputs", "obligation": "height < last_confirmed_height (strictly) => return without opening a batch; otherwise the node's answer is applied"}, held=held)
     if not held:
         run.finding(Finding(rid, ap.id, "refresh writes although the node height is below the wallet's confirmed height", site=ap.loc(), detail=why))
+
+
+def was_unspent_flag(ctx, rid):
+    """map_wallet_outputs hands the revert detection a flag that is exactly (status == Unspent): only an output that
+    was confirmed-unspent and has vanished from the node can make its transaction a revert candidate."""
+    run = ctx.run
+    OD = c.LW + "types::OutputData"
+    mw = ctx.fn(c.LW + "internal::updater::map_wallet_outputs")
+    if not mw:
+        return
+    tl = [st for bb in mw.bbs for st in bb["s"] if st["k"] == "a" and st["r"]["k"] == "agg" and st["r"].get("ak") == "tuple" and len(st["r"]["f"]) == 4]
+    h = False
+    if len(tl) == 1:
+        o4 = tl[0]["r"]["f"][3][1]
+        l4 = vf.strip_clones(mw, o4)
+        for x in cfg.comparisons(mw):
+            if x.dest == l4 or (x.is_call and vf.strip_clones(mw, {"c": [x.dest, []]}) == l4):
+                pl, pr = vf.producers(mw, x.l), vf.producers(mw, x.r)
+                for a, b_ in ((pl, pr), (pr, pl)):
+                    if x.op == "Eq" and vf.has_field(a, OD, "status") and ("agg", c.LW + "types::OutputStatus", "Unspent") in b_:
+                        h = True
+    run.instance(rid, {"fn": "map_wallet_outputs", "obligation": "the 'was unspent' flag handed to the revert detection is (status == Unspent)"}, held=h)
+    if not h:
+        run.finding(Finding(rid, mw.id, "the 'was unspent' flag of the refresh map is not (status == Unspent)", site=mw.loc()))
